@@ -443,7 +443,10 @@ func genC(r *Rng) ([]byte, []cMethodModel) {
 				specParts = append(specParts, "MRB_ARGS_BLOCK()")
 			}
 		}
-		mm.Spec = strings.Join(specParts, r.Pick([]string{"|", " | "}))
+		// the spec as C programmers lay it out: on one line, or one term per line, with or
+		// without a comment next to a term
+		mm.Spec = strings.Join(specParts, r.Pick([]string{"|", " | ", " | ", " |\n                    ", "\n                    | ",
+			" | /* then */ ", " |  /* next */\n                    ", " | // more\n                    "}))
 		mm.Min, mm.Max = req+post, req+opt+post
 		if rest {
 			mm.Max = -1
@@ -527,14 +530,40 @@ func genC(r *Rng) ([]byte, []cMethodModel) {
 					"  if (v[0].tt == MRBC_TT_NIL) {\n    SET_NIL_RETURN();\n    return;\n  }\n",
 				})
 			}
-			for i := 1; i <= r0; i++ {
-				body += fmt.Sprintf("  int v%d = GET_INT_ARG(%d);\n", i, i)
-			}
-			for i := r0 + 1; i <= r0+o0; i++ {
-				if i == r0+1 {
-					body += fmt.Sprintf("  if (argc >= %d) {\n", i)
+			// the reads come in source order or in any other order (and an argument may be
+			// read twice): what counts is the set of indexes, not where they appear
+			order := func(lo, hi int) []int {
+				var xs []int
+				for i := lo; i <= hi; i++ {
+					xs = append(xs, i)
 				}
-				body += fmt.Sprintf("    int v%d = GET_INT_ARG(%d);\n", i, i)
+				if r.Chance(1, 2) {
+					for i := len(xs) - 1; i > 0; i-- {
+						j := r.Intn(i + 1)
+						xs[i], xs[j] = xs[j], xs[i]
+					}
+					if len(xs) > 0 && r.Chance(1, 3) {
+						xs = append(xs, xs[r.Intn(len(xs))])
+					}
+				}
+				return xs
+			}
+			seen := map[int]bool{}
+			decl := func(i int) string {
+				if seen[i] {
+					return fmt.Sprintf("v%d = GET_INT_ARG(%d);\n", i, i)
+				}
+				seen[i] = true
+				return fmt.Sprintf("int v%d = GET_INT_ARG(%d);\n", i, i)
+			}
+			for _, i := range order(1, r0) {
+				body += "  " + decl(i)
+			}
+			for k, i := range order(r0+1, r0+o0) {
+				if k == 0 {
+					body += fmt.Sprintf("  if (argc >= %d) {\n", r0+1)
+				}
+				body += "    " + decl(i)
 			}
 			if o0 > 0 {
 				body += "  }\n"
